@@ -305,7 +305,7 @@ Lemma position_eq tb num den t : 0 < num -> 0 < beat_ticks tb den -> 0 <= t ->
 Proof.
   unfold beat_ticks. intros Hn Hb Ht. unfold position, position_of, beat_base, beat_ticks.
   set (beat := 4 * tb / den) in *. replace (beat =? 0) with false by lia.
-  f_equal; [f_equal|].
+  apply f_equal2; [apply f_equal2|reflexivity].
   - rewrite Z.div_div by lia. reflexivity.
   - rewrite Z.rem_mul_r by lia.
     rewrite (Z.mul_comm beat), Z.div_add by lia.
@@ -357,7 +357,7 @@ Proof.
   cbn [dump_msg_ok] in H. destruct H as (_ & _ & _ & Hb & _ & H88).
   destruct (H88 ltac:(lia)) as (nn & dd & r' & -> & Hnn & Hdd & Hbeat).
   inversion Hb as [|? ? _ Hb1]; subst. inversion Hb1 as [|? ? Hdd0 _]; subst. unfold is_byte in Hdd0.
-  unfold sig_ok. cbn [fst snd]. repeat split; try lia. apply Z.pow_pos_nonneg; lia.
+  unfold sig_ok. cbn [fst snd]. repeat split; try lia; try (apply Z.pow_pos_nonneg; lia).
 Qed.
 
 Lemma eot_after_item e m tb : dump_msg_ok tb m -> eot_after e m = e.
@@ -408,4 +408,241 @@ Proof.
       replace (pos <? pos + zlen (enc_item (dt, m) ++ enc_track l ++ EOT)) with true
         by (unfold zlen; rewrite app_length; lia).
       reflexivity.
+Qed.
+
+(* ================= the whole file ================= *)
+Definition chunk (l : list (Z * msg)) : list Z :=
+  MTrk ++ push_u32 (zlen (enc_track l ++ EOT)) ++ (enc_track l ++ EOT).
+Definition smf_file (tb : Z) (tracks : list (list (Z * msg))) : list Z :=
+  MThd ++ push_u32 6 ++ push_u16 1 ++ push_u16 (zlen tracks) ++ push_u16 tb ++ flat_map chunk tracks.
+Definition track_ok (tb : Z) (l : list (Z * msg)) : Prop :=
+  Forall (dump_item_ok tb) l /\ total_delta l < 2 ^ 64 /\ zlen (enc_track l ++ EOT) < 2 ^ 32.
+
+Lemma lor_shiftl_8 v b : 0 <= b < 256 -> Z.lor (Z.shiftl v 8) b = v * 256 + b.
+Proof. intros. rewrite lor_shiftl_add by (change (2 ^ 8) with 256; lia). reflexivity. Qed.
+
+Lemma read_u32_push v r : 0 <= v < 2 ^ 32 -> read_u32 (push_u32 v ++ r) = v.
+Proof.
+  intros H. destruct (push_u32_be v H) as (a & b & c & d & -> & Ha & Hb & Hc & Hd & E).
+  unfold read_u32, read_be. cbn [app firstn fold_left].
+  rewrite !lor_shiftl_8 by lia. unfold be32 in E. lia.
+Qed.
+
+Lemma read_u16_push v r : 0 <= v < 65536 -> read_u16 (push_u16 v ++ r) = v.
+Proof.
+  intros H. destruct (push_u16_be v H) as (a & b & -> & Ha & Hb & E).
+  unfold read_u16, read_be. cbn [app firstn fold_left].
+  rewrite !lor_shiftl_8 by lia. unfold be16 in E. lia.
+Qed.
+
+Lemma push_u32_length v : length (push_u32 v) = 4%nat.
+Proof. reflexivity. Qed.
+Lemma push_u16_length v : length (push_u16 v) = 2%nat.
+Proof. reflexivity. Qed.
+
+Lemma read_str_tag tag r : length tag = 4%nat -> read_str (tag ++ r) 4 = Ok (decode_text tag).
+Proof.
+  intros H. change 4 with (Z.of_nat 4). rewrite <- H. apply read_str_app.
+Qed.
+
+Lemma chunk_length l : (length l + 12 <= length (chunk l))%nat.
+Proof.
+  unfold chunk. rewrite !app_length, push_u32_length. pose proof (enc_track_length l). cbn [length MTrk EOT]. lia.
+Qed.
+
+Lemma track_lines_sig_ok tb l : forall t0 s, Forall (dump_item_ok tb) l -> sig_ok tb s ->
+  sig_ok tb (snd (track_lines MP tb s t0 (l ++ [EOTmsg]))).
+Proof.
+  induction l as [|[d m] l IH]; intros t0 s Hl Hs.
+  - exact Hs.
+  - inversion Hl as [|? ? [_ Hm] Hl']; subst. cbn [snd] in Hm.
+    cbn [app track_lines].
+    pose proof (IH (t0 + d) (sig_after s m) Hl' (sig_after_ok tb s m Hs (or_introl Hm))) as Q.
+    destruct (track_lines MP tb (sig_after s m) (t0 + d) (l ++ [EOTmsg])) as [ls2 s2].
+    exact Q.
+Qed.
+
+Lemma chunk_split l x :
+  chunk l ++ x = MTrk ++ push_u32 (zlen (enc_track l ++ EOT)) ++ enc_track l ++ EOT ++ x.
+Proof. unfold chunk. rewrite <- !app_assoc. reflexivity. Qed.
+
+Lemma tracks_loop_chunks tb : forall tracks no s pos fuel,
+  Forall (track_ok tb) tracks -> sig_ok tb s -> (length (flat_map chunk tracks) <= fuel)%nat ->
+  tracks_loop (length tracks) no fuel tb (inf_of s false) pos (flat_map chunk tracks)
+  = Ok (file_lines MP tb s no (map (fun l => l ++ [EOTmsg]) tracks)).
+Proof.
+  induction tracks as [|l tracks IH]; intros no s pos fuel Hok Hs Hf; [reflexivity|].
+  inversion Hok as [|? ? (Hit & Hov & Hsz) Hrest]; subst.
+  cbn [length tracks_loop flat_map map file_lines].
+  cbn [flat_map] in Hf. rewrite app_length in Hf. pose proof (chunk_length l) as HL.
+  rewrite (chunk_split l (flat_map chunk tracks)).
+  rewrite (read_str_tag MTrk) by reflexivity. cbn [bind].
+  change (list_eqb (decode_text MTrk) s_mtrk) with true. cbn [negb].
+  change (skipn 4 (MTrk ++ ?x)) with x.
+  assert (Hz : 0 <= zlen (enc_track l ++ EOT)) by (unfold zlen; lia).
+  rewrite read_u32_push by lia.
+  replace (skipn 8 (MTrk ++ push_u32 (zlen (enc_track l ++ EOT)) ++ enc_track l ++ EOT ++ flat_map chunk tracks))
+    with (enc_track l ++ EOT ++ flat_map chunk tracks) by reflexivity.
+  rewrite (track_loop_items tb l fuel s false (pos + 8) 0 (flat_map chunk tracks)); try assumption; try lia.
+  destruct (track_lines MP tb s 0 (l ++ [EOTmsg])) as [ls s'] eqn:ETL.
+  cbn [bind inf_of i_frac i_deno].
+  assert (Hs' : sig_ok tb s').
+  { pose proof (track_lines_sig_ok tb l 0 s Hit Hs) as Q. rewrite ETL in Q. exact Q. }
+  change (mkInfo (fst s') (snd s') false) with (inf_of s' false).
+  rewrite (IH (no + 1) s' _ fuel Hrest Hs') by lia.
+  cbn [bind]. reflexivity.
+Qed.
+
+Theorem dump_smf_file tb tracks : 0 < tb < 65536 -> zlen tracks < 65536 -> Forall (track_ok tb) tracks ->
+  dump_midi (smf_file tb tracks)
+  = Ok (file_header MP (zlen tracks) tb ++ file_lines MP tb (4, 4) 0 (map (fun l => l ++ [EOTmsg]) tracks)).
+Proof.
+  intros Htb Hn Hok. unfold dump_midi, smf_file.
+  rewrite (read_str_tag MThd) by reflexivity. cbn [bind].
+  change (list_eqb (decode_text MThd) s_mthd) with true. cbn [negb].
+  change (skipn 4 (MThd ++ ?x)) with x.
+  rewrite read_u32_push by lia. cbn [Z.eqb Pos.eqb negb].
+  assert (Hz : 0 <= zlen tracks) by (unfold zlen; lia).
+  change (skipn 8 (MThd ++ push_u32 6 ++ ?x)) with x.
+  rewrite read_u16_push by lia. change (1 >? 3) with false. cbv iota.
+  change (skipn 10 (MThd ++ push_u32 6 ++ push_u16 1 ++ ?x)) with x.
+  rewrite read_u16_push by lia.
+  change (skipn 12 (MThd ++ push_u32 6 ++ push_u16 1 ++ push_u16 (zlen tracks) ++ ?x)) with x.
+  rewrite read_u16_push by lia.
+  change (skipn 14 (MThd ++ push_u32 6 ++ push_u16 1 ++ push_u16 (zlen tracks) ++ push_u16 tb ++ ?x)) with x.
+  unfold zlen at 1. rewrite Nat2Z.id.
+  change info_new with (inf_of (4, 4) false).
+  rewrite (tracks_loop_chunks tb tracks 0 (4, 4) 14).
+  - cbn [bind]. reflexivity.
+  - assumption.
+  - unfold sig_ok, beat_ticks. cbn [fst snd]. lia.
+  - rewrite !app_length. lia.
+Qed.
+
+(* ---- the writer's output has this shape (C02: write_events_wire) ---- *)
+Lemma write_tracks_wire tracks : Forall (fun evs => forallb event_ok evs = true) tracks ->
+  write_tracks tracks = Ok (flat_map chunk (map (wire 0) tracks)).
+Proof.
+  induction tracks as [|evs tracks IH]; intros H; [reflexivity|].
+  inversion H as [|? ? He Hr]; subst.
+  cbn [write_tracks map flat_map]. unfold generate_track. rewrite (write_events_wire evs 0 He).
+  cbn [bind]. rewrite (IH Hr). cbn [bind]. unfold chunk. rewrite <- !app_assoc. reflexivity.
+Qed.
+
+Lemma generate_sorted_shape tb tracks : Forall (fun evs => forallb event_ok evs = true) tracks ->
+  generate_sorted tb tracks = Ok (smf_file tb (map (wire 0) tracks)).
+Proof.
+  intros H. unfold generate_sorted. rewrite (write_tracks_wire tracks H). cbn [bind].
+  unfold smf_file, zlen. rewrite map_length. reflexivity.
+Qed.
+
+Lemma chunk_le_file tb tracks l : In l tracks -> (length (chunk l) <= length (smf_file tb tracks))%nat.
+Proof.
+  intros Hin. unfold smf_file. rewrite !app_length.
+  assert (length (chunk l) <= length (flat_map chunk tracks))%nat; [|lia].
+  induction tracks as [|x tracks IH]; [destruct Hin|].
+  cbn [flat_map]. rewrite app_length. destruct Hin as [->|Hin]; [lia|]. specialize (IH Hin). lia.
+Qed.
+
+Theorem dump_generate tb tracks bin : 0 < tb < 65536 -> zlen tracks < 65536 ->
+  Forall (fun evs => forallb event_ok evs = true) tracks ->
+  Forall (fun evs => Forall (dump_item_ok tb) (wire 0 evs) /\ total_delta (wire 0 evs) < 2 ^ 64) tracks ->
+  generate_sorted tb tracks = Ok bin -> zlen bin < 2 ^ 32 ->
+  dump_midi bin
+  = Ok (file_header MP (zlen tracks) tb
+        ++ file_lines MP tb (4, 4) 0 (map (fun evs => wire 0 evs ++ [EOTmsg]) tracks)).
+Proof.
+  intros Htb Hn Hev Hit Hgen Hsz.
+  rewrite (generate_sorted_shape tb tracks Hev) in Hgen. inversion Hgen; subst bin. clear Hgen.
+  rewrite dump_smf_file.
+  - unfold zlen. rewrite map_length, map_map. reflexivity.
+  - assumption.
+  - unfold zlen in *. rewrite map_length. assumption.
+  - apply Forall_forall. intros l Hin.
+    pose proof (chunk_le_file tb _ l Hin) as HL.
+    apply in_map_iff in Hin. destruct Hin as (evs & <- & Hin).
+    rewrite Forall_forall in Hit. destruct (Hit evs Hin) as [H1 H2].
+    split; [assumption|]. split; [assumption|].
+    unfold chunk in HL. rewrite !app_length in HL. unfold zlen in *. rewrite app_length. lia.
+Qed.
+
+(* the statement of the track theorem with the fuel bound of dump_midi (the length of the file) *)
+Theorem track_loop_lines tb l fuel s e pos t0 after :
+  Forall (dump_item_ok tb) l -> sig_ok tb s -> (length (enc_track l ++ EOT) <= fuel)%nat ->
+  0 <= t0 -> t0 + total_delta l < 2 ^ 64 ->
+  track_loop fuel tb (mkInfo (fst s) (snd s) e) pos (pos + zlen (enc_track l ++ EOT)) t0 (enc_track l ++ EOT ++ after)
+  = let '(lines, s') := track_lines (mkPrinters dec dec3 hex2 HEX2 decode_text) tb s t0 (l ++ [EOTmsg]) in
+    Ok (lines, mkInfo (fst s') (snd s') true, pos + zlen (enc_track l ++ EOT), after).
+Proof.
+  intros Hl Hs Hf Ht Hov. apply (track_loop_items tb l fuel s e pos t0 after); try assumption.
+  rewrite app_length in Hf. pose proof (enc_track_length l). cbn [length EOT] in Hf. lia.
+Qed.
+
+(* ---- the number printers mean what `{}`, `{:03}`, `{:02x}`, `{:02X}` mean ---- *)
+Definition digits_value (base : Z) (digit_of : Z -> Z) (ds : list Z) : Z :=
+  fold_left (fun acc c => acc * base + digit_of c) ds 0.
+Definition dec_digit (c : Z) : Z := c - 48.
+
+Lemma fold_digits_app base (f : Z -> Z) a b acc :
+  fold_left (fun acc c => acc * base + f c) (a ++ b) acc
+  = fold_left (fun acc c => acc * base + f c) b (fold_left (fun acc c => acc * base + f c) a acc).
+Proof. apply fold_left_app. Qed.
+
+Lemma dec_fuel_value f : forall n, 0 <= n < 10 ^ (Z.of_nat f + 1) ->
+  digits_value 10 dec_digit (dec_fuel f n) = n /\ Forall (fun c => 48 <= c <= 57) (dec_fuel f n).
+Proof.
+  unfold digits_value, dec_digit.
+  induction f as [|f IH]; intros n H.
+  - cbn in H. cbn [dec_fuel fold_left]. split; [lia | repeat constructor; lia].
+  - cbn [dec_fuel]. destruct (n <? 10) eqn:E.
+    + cbn [fold_left]. split; [lia | repeat constructor; lia].
+    + assert (Hq : 0 <= n / 10 < 10 ^ (Z.of_nat f + 1)).
+      { rewrite Nat2Z.inj_succ in H. replace (Z.succ (Z.of_nat f) + 1) with (Z.succ (Z.of_nat f + 1)) in H by lia.
+        rewrite Z.pow_succ_r in H by lia. split; [apply Z.div_pos; lia | apply Z.div_lt_upper_bound; lia]. }
+      destruct (IH (n / 10) Hq) as [V D]. rewrite fold_digits_app, V. cbn [fold_left].
+      split; [lia|]. apply Forall_app. split; [assumption | repeat constructor; lia].
+Qed.
+
+Theorem dec_nat_value n : 0 <= n ->
+  digits_value 10 dec_digit (dec_nat n) = n /\ Forall (fun c => 48 <= c <= 57) (dec_nat n).
+Proof.
+  intros H. unfold dec_nat. apply dec_fuel_value. rewrite Z2Nat.id by apply Z.log2_nonneg.
+  destruct (Z.eq_dec n 0) as [->|Hn]; [cbn; lia|].
+  destruct (Z.log2_spec n ltac:(lia)) as [_ Hlt]. split; [lia|].
+  eapply Z.lt_le_trans; [exact Hlt|]. unfold Z.succ.
+  apply Z.pow_le_mono_l. pose proof (Z.log2_nonneg n). lia.
+Qed.
+
+Definition hex_digit_value (c : Z) : Z := if c <? 58 then c - 48 else if c <? 71 then c - 55 else c - 87.
+Theorem hex2_value b : 0 <= b <= 255 ->
+  digits_value 16 hex_digit_value (hex2 b) = b /\ digits_value 16 hex_digit_value (HEX2 b) = b /\
+  length (hex2 b) = 2%nat /\ length (HEX2 b) = 2%nat.
+Proof.
+  intros H.
+  assert (F : forallb (fun n => (digits_value 16 hex_digit_value (hex2 (Z.of_nat n)) =? Z.of_nat n)
+                                && (digits_value 16 hex_digit_value (HEX2 (Z.of_nat n)) =? Z.of_nat n)) (seq 0 256) = true)
+    by (vm_compute; reflexivity).
+  rewrite forallb_forall in F.
+  specialize (F (Z.to_nat b)). rewrite Z2Nat.id in F by lia.
+  assert (In (Z.to_nat b) (seq 0 256)) as Hin by (apply in_seq; lia).
+  specialize (F Hin). apply andb_prop in F. destruct F as [F1 F2].
+  repeat split; try reflexivity; apply Z.eqb_eq; assumption.
+Qed.
+
+Theorem dec3_spec n : 0 <= n ->
+  digits_value 10 dec_digit (dec3 n) = n /\ (3 <= length (dec3 n))%nat /\ (1000 <= n -> dec3 n = dec_nat n).
+Proof.
+  intros H. destruct (dec_nat_value n H) as [V D]. unfold dec3, pad3.
+  split; [|split].
+  - unfold digits_value in *. rewrite fold_digits_app.
+    assert (Z0 : forall k, fold_left (fun acc c => acc * 10 + dec_digit c) (repeat 48 k) 0 = 0).
+    { induction k as [|k IHk]; [reflexivity|]. cbn [repeat fold_left]. exact IHk. }
+    rewrite Z0. exact V.
+  - rewrite app_length, repeat_length. lia.
+  - intros Hn.
+    assert (3 < length (dec_nat n))%nat; [|replace (3 - length (dec_nat n))%nat with O by lia; reflexivity].
+    (* four digits at least: the value of at most three digits is below 1000 *)
+    destruct (dec_nat n) as [|a [|b [|c [|d r]]]] eqn:E; cbn [length]; try lia; exfalso;
+      unfold digits_value, dec_digit in V; cbn [fold_left] in V;
+      repeat match goal with H : Forall _ (_ :: _) |- _ => inversion H; clear H; subst end; lia.
 Qed.
